@@ -134,6 +134,40 @@ func (p *Parser) ParseFile(filename string, varPool *VarPool) (*MetaData, []*Bui
 		}
 	}
 
+	// The functions the package's kessoku.Inject declarations generate are package-level names too
+	// (the files that declare them are skipped above as generated): an import or a variable of the
+	// generated code must not take one of them.
+	if injectObj := kessokuPackageScope.Lookup("Inject"); injectObj != nil && pkg.TypesInfo != nil {
+		for _, f := range pkg.Syntax {
+			if f == nil || isKessokuGenerated(f) {
+				continue
+			}
+			ast.Inspect(f, func(n ast.Node) bool {
+				call, ok := n.(*ast.CallExpr)
+				if !ok || len(call.Args) == 0 {
+					return true
+				}
+				fun := call.Fun
+				switch indexed := fun.(type) {
+				case *ast.IndexExpr:
+					fun = indexed.X
+				case *ast.IndexListExpr:
+					fun = indexed.X
+				}
+				sel, ok := fun.(*ast.SelectorExpr)
+				if !ok || pkg.TypesInfo.Uses[sel.Sel] != injectObj {
+					return true
+				}
+				if tv, ok := pkg.TypesInfo.Types[call.Args[0]]; ok && tv.Value != nil && tv.Value.Kind() == constant.String {
+					if name := constant.StringVal(tv.Value); token.IsIdentifier(name) {
+						_ = varPool.GetName(name)
+					}
+				}
+				return true
+			})
+		}
+	}
+
 	for _, f := range pkg.Syntax {
 		if f == nil || isKessokuGenerated(f) {
 			continue
